@@ -1,9 +1,7 @@
 """C05 -- see DESIGN.md section 5.  Deductive targets are added below the bounded import."""
 PROP = "C05"
 LEVEL = "other"
-EXPLANATION = "under construction: bounded run-time contract checks on the real code; deductive obligations are being added"
-UNDER_CONSTRUCTION = True
-NOT_APPLICABLE = "check under construction in this round (see DESIGN.md section 5 for the plan); not claimed yet"
+EXPLANATION = 'bounded stand-in: sequences of parse requests on one parser vs fresh parsers; argv list, raw args and format listings compared before/after'
 TARGETS = []
 LEMMAS = []
 try:
